@@ -597,7 +597,18 @@ func scenC14(x *Exec) {
 		for k := range payloads {
 			var b strings.Builder
 			for i := 0; i < p.Traffic; i++ {
-				fmt.Fprintf(&b, "%s %d %d\n", c14Names[g.Pick(len(c14Names))], i, 946684800+i)
+				// valid lines in every layout the validator lets through: tabs and runs of blanks between the fields, a carriage
+				// return at the end, unusual numeric spellings, timestamps far behind
+				sep := func() string { return []string{" ", " ", " ", " ", "\t", "  ", " \t", "\t\t"}[g.Pick(8)] }
+				val := fmt.Sprint(i)
+				if g.Bool(0.15) {
+					val = []string{"1e3", "+5", "-0.5", ".5", "0x1p-2", "NaN", "1e400"}[g.Pick(7)]
+				}
+				ts := 946684800 + i
+				if g.Bool(0.1) {
+					ts -= []int{100, 5000, 946684000}[g.Pick(3)]
+				}
+				fmt.Fprintf(&b, "%s%s%s%s%d%s\n", c14Names[g.Pick(len(c14Names))], sep(), val, sep(), ts, []string{"", "", "", "\r", " "}[g.Pick(5)])
 			}
 			payloads[k] = b.String()
 		}
